@@ -105,17 +105,50 @@ def h_variants(ctx):
     run_cell(ctx, "regular", metric, x, typ, variant)
 
 
+def h_interactions(ctx):
+    """aggregator x threshold-list x dataset-shape interactions on tables (all-missing slices, repeated lookups)"""
+    p = ctx.params
+    metric = ctx.choose("metric", p["metrics"], free=True)
+    shape = ctx.choose("shape", p["ishapes"], free=True)
+    x = ctx.choose("x", p["ix"], free=True)
+    agg = ctx.choose("agg", p["iaggs"], free=True)
+    r = ctx.choose("r", p["irs"], free=True)
+    extra = []
+    if agg is not None:
+        extra += ["-agg", agg]
+    extra += list(r)
+    run_cell(ctx, shape, metric, x, "csv", extra)
+
+
+def h_edgetypes(ctx):
+    """the non-default output types with thresholds outside the data range (all-NaN scores)"""
+    p = ctx.params
+    metric = ctx.choose("metric", p["metrics"], free=True)
+    typ = ctx.choose("type", p["etypes"], free=True)
+    variant = ctx.choose("variant", p["evariants"], free=True)
+    shape = ctx.choose("shape", p["eshapes"], free=True)
+    run_cell(ctx, shape, metric, None, typ, variant)
+
+
 def params_for(tier):
     metrics = metric_names() + DIAGRAMS
     variants = [("-r", "1,2,3"), ("-q", "0.1,0.9"), ("-r", "2"), ("-q", "0.5")]
     variants += [("-b", b, "-r", "1,2,3") for b in BIN_TYPES] + [("-b", b) for b in BIN_TYPES]
     variants += [("-agg", a) for a in AGGS]
+    irs = [(), ("-r", "2"), ("-r", "0,5"), ("-q", "0.1,0.9")]
+    ev = [(), ("-r", "50"), ("-r", "-50")]
+    et = ["rank", "maprank", "impact", "mapimpact", "map"]
     if tier == "quick":
         return {"metrics": metrics, "shapes": ["regular"], "types": ["csv", "text", "plot"],
-                "vx": [None, "threshold"], "vtypes": ["csv"], "variants": variants}
+                "vx": [None, "threshold"], "vtypes": ["csv"], "variants": variants,
+                "ishapes": ["missing_slice", "regular"], "ix": [None, "location"], "iaggs": [None, "min", "range", "0.5"], "irs": irs,
+                "etypes": et, "evariants": ev, "eshapes": ["regular"]}
     return {"metrics": metrics, "shapes": ["regular", "single_time", "single_location", "missing_slice"],
             "types": TYPES_ALL, "vx": [None, "threshold", "no", "location"], "vtypes": ["csv", "plot"],
-            "variants": variants}
+            "variants": variants,
+            "ishapes": ["missing_slice", "regular", "single_time", "single_location"], "ix": [None, "location", "time", "no"],
+            "iaggs": [None] + AGGS, "irs": irs + [("-r", "50")],
+            "etypes": et + ["plot"], "evariants": ev, "eshapes": ["regular", "missing_slice", "single_location"]}
 
 
 def run(tier, only=None):
@@ -136,12 +169,26 @@ def run(tier, only=None):
             "variants", st, bound="full product %d metrics x %d -x x %d types x %d (-r/-q/-b/-agg) variants"
             % (len(p["metrics"]), len(p["vx"]), len(p["vtypes"]), len(p["variants"])),
             rule="as grid, with one option variant added", wall=time.time() - t0))
+    if only in (None, "interactions"):
+        t0 = time.time()
+        st = explore.explore(h_interactions, mode="full", params=p, repo_root=core.REPO)
+        subs.append(core.Sub.from_e1(
+            "interactions", st, bound="full product %d metrics x %d shapes x %d -x x %d aggregators x %d threshold/quantile lists (csv)"
+            % (len(p["metrics"]), len(p["ishapes"]), len(p["ix"]), len(p["iaggs"]), len(p["irs"])),
+            rule="as grid; aggregator x threshold-list x shape interactions", wall=time.time() - t0))
+    if only in (None, "edgetypes"):
+        t0 = time.time()
+        st = explore.explore(h_edgetypes, mode="full", params=p, repo_root=core.REPO)
+        subs.append(core.Sub.from_e1(
+            "edgetypes", st, bound="full product %d metrics x %d output types x %d threshold variants x %d shapes"
+            % (len(p["metrics"]), len(p["etypes"]), len(p["evariants"]), len(p["eshapes"])),
+            rule="as grid; thresholds outside the data range make every score NaN", wall=time.time() - t0))
     return subs
 
 
 def replay(rec):
     p = params_for(rec.get("tier", "quick"))
-    h = h_grid if rec["subcheck"] == "grid" else h_variants
+    h = {"grid": h_grid, "variants": h_variants, "interactions": h_interactions, "edgetypes": h_edgetypes}[rec["subcheck"]]
     ctx, _ = explore.replay(h, rec["choices"], rec.get("labels"), params=p, repo_root=core.REPO)
     want = rec["signature"][1]
     return [v.locus for v in ctx.violations if v.locus == want]
